@@ -10,7 +10,8 @@ META = dict(
     text=("Every location an eval_error reports is a copy of the parser's cursor. Kernel-checked for every input text: n forward steps from the start leave the "
           "cursor at exactly (1 + newlines consumed, 1 + bytes since the last newline) [cursor_tracks_line_and_column, lineColGo_line]; `--` undoes the last `++` "
           "[dec_undoes_inc]; `++` at the end moves nothing [inc_at_end]; and the single remembered column is provably NOT enough for two steps back over two "
-          "newlines [dec_twice_counterexample]. The model is tied to the real Position by driving both over random texts (LF, CRLF, empty lines, long lines) with "
+          "newlines [dec_twice_counterexample] — while the two rewinds the parser actually performs over a line end (SkipComment stepping back over the CR LF or LF that "
+          "ends a // or # comment) cross one line feed only and are exact [crlf_rewind_exact, dec_undoes_inc]. The model is tied to the real Position by driving both over random texts (LF, CRLF, empty lines, long lines) with "
           "random ++/-- sequences. Deciding part: generated programs spread over 1-3 eval() chunks/files (blank lines, //, # and /* */ comments, tabs, CRLF or LF, "
           "definitions in any order) with ONE injected fault (unknown identifier, unknown function, wrong arity, wrong argument type) at a (file, line, column) "
           "known by construction, 0-4 script functions deep, call sites wrapped in declarations, arithmetic, pr(...), if-blocks or statement lists; the real "
